@@ -97,8 +97,8 @@ scalar_value:
 	| NULL_P						{ $$ = ast.NewConst(ast.ConstNull) }
 	| TRUE_P						{ $$ = ast.NewConst(ast.ConstTrue) }
 	| FALSE_P						{ $$ = ast.NewConst(ast.ConstFalse) }
-	| NUMERIC_P						{ $$ = ast.NewNumeric($1) }
-	| INT_P							{ $$ = ast.NewInteger($1) }
+	| NUMERIC_P						{ $$ = newNumeric(pathlex, $1) }
+	| INT_P							{ $$ = newInteger(pathlex, $1) }
 	| VARIABLE_P					{ $$ = ast.NewVariable($1) }
 	;
 
@@ -244,11 +244,11 @@ accessor_op:
 
 csv_elem:
 	INT_P
-		{ $$ = ast.NewInteger($1) }
+		{ $$ = newInteger(pathlex, $1) }
 	| '+' INT_P %prec UMINUS
-		{ $$ = ast.NewUnaryOrNumber(ast.UnaryPlus, ast.NewInteger($2)) }
+		{ $$ = ast.NewUnaryOrNumber(ast.UnaryPlus, newInteger(pathlex, $2)) }
 	| '-' INT_P %prec UMINUS
-		{ $$ = ast.NewUnaryOrNumber(ast.UnaryMinus, ast.NewInteger($2)) }
+		{ $$ = ast.NewUnaryOrNumber(ast.UnaryMinus, newInteger(pathlex, $2)) }
 	;
 
 csv_list:
@@ -262,7 +262,7 @@ opt_csv_list:
 	;
 
 datetime_precision:
-	INT_P							{ $$ = ast.NewInteger($1) }
+	INT_P							{ $$ = newInteger(pathlex, $1) }
 	;
 
 opt_datetime_precision:
